@@ -496,7 +496,8 @@ func TestC08(t *testing.T) {
 	h.Rule("programs of 2-4 defuns (acyclic call graph plus counted self recursion, bodies from the C01 expression generator with trace marks), 0-2 defvars read and assigned by the functions, " +
 		"an optional macro, and a main form; every order of the definitions (all for <= 3, identity + reverse + 4 drawn for more) x {list forms, Code.Compile, CompileString, load from a file, eval of the quoted form} " +
 		"x the same main code object evaluated k = 1..5 times x optional redefinition of one function followed by one more evaluation; oracle: results and traces of every evaluation equal the reference evaluator " +
-		"(global functions late-bound), hence equal across orders and modes. Non-trivial: a caller defined before its callee, or k >= 2, or a redefinition. Distinct by case JSON.")
+		"(global functions late-bound), hence equal across orders and modes. factory-rerun: one (lambda () v) / (defun get () v) form inside a function evaluated 2-5 times, each time under a let of v or not, global v assigned before or after, list form or compiled; every closure answers what it answers when it is the only evaluation of the form. Non-trivial: a caller defined before its callee, or k >= 2, or a redefinition. Distinct by case JSON.")
 	h.Assume("internal/refeval; fresh function, macro and variable names per variant (renamed by the harness) so variants cannot contaminate one another")
 	h.RunProp(t, order, h.N(1200, 12000))
+	testFactory(t)
 }
